@@ -143,6 +143,11 @@ def gen_cases(ctx):
         for mi, ct in enumerate(MEDIA):
             for bname in ('call', 'mixed', 'notif', 'parse', 'perr'):
                 yield dict(status='default', path='/api', media=mi, body=bname, endpoint='', dct=dct)
+    for integration in ('werkzeug', 'flask'):
+        for kinds in (('call', 'call'), ('call', 'notif')):
+            K = 8
+            for k in range(K):
+                yield dict(part='threads', integration=integration, kinds=list(kinds), budget=ctx.pick(1, 2), shard=(k, K, 1))
     # other request headers (Accept and friends) play no part: the reply is the same as without them
     for accept in ('application/json-rpc', 'text/plain', 'text/html,application/xhtml+xml;q=0.9', '*/*', 'application/json', 'application/xml;q=0.9, */*;q=0.1'):
         for mi in (0, 1, 5):
@@ -194,7 +199,76 @@ def run_seq(case, rec):
     return tuple(obs)
 
 
+def run_threads_case(case, rec):
+    """E5: two threads POST to ONE application object (a threaded WSGI server) - a thread switch is possible at every source line of
+    pjrpc; each request must be dispatched with its own context (the framework's request object) and get its own reply"""
+    import os
+    from mc.core import explore_choices
+    from mc.threadsched import run_threads
+    pj = os.path.dirname(os.path.abspath(pjrpc.__file__)) + os.sep
+    kind = case['integration']
+    sched = 0
+
+    def once(env):
+        integ = Integration(kind, '/api')
+
+        if kind == 'flask':
+            import flask
+
+            def who(n):
+                # flask hands no context over: the request of THIS http request is flask's request proxy
+                return [flask.request.headers.get('X-Who'), n]
+            integ.dispatcher.add(who, name='who')
+        else:
+            def who(ctx, n):
+                # the context is the web framework's request object of THIS http request
+                return [ctx.headers.get('X-Who'), n]
+            integ.dispatcher.add(who, name='who', context='ctx')
+        integ.ready()
+        outs = [None, None]
+
+        def body(i):
+            def f():
+                doc = {'jsonrpc': '2.0', 'method': 'who', 'params': [i]}
+                if case['kinds'][i] == 'call':
+                    doc['id'] = i
+                r = integ.post(json.dumps(doc).encode(), 'application/json', extra_headers={'X-Who': 'caller-%d' % i})
+                outs[i] = r
+            return f
+        res, tr = run_threads([body(0), body(1)], env, [pj])
+        return outs, res, tr
+    for choices, (outs, res, tr) in explore_choices(once, budget=case['budget'], shard=tuple(case['shard']), max_exec=400000):
+        sched += 1
+        rec.transitions += tr.points
+        c = dict(case, choices=list(choices))
+        for i in (0, 1):
+            k, v = res[i]
+            r = outs[i]
+            if k == 'exc' or r is None or r.raised:
+                rec.violation('C18:%s:threads:request failed under a thread schedule' % kind, c, expected='a reply', observed=repr(v if k == 'exc' else r))
+                break
+            if case['kinds'][i] == 'call':
+                try:
+                    got = json.loads(r.body.decode('utf-8')).get('result')
+                except Exception:   # noqa
+                    got = repr(r.body[:100])
+                if got != ['caller-%d' % i, i]:
+                    rec.violation('C18:%s:threads:a request was dispatched with another request\'s context / got another reply' % kind, dict(c, thread=i),
+                                  expected=['caller-%d' % i, i], observed=got)
+                    break
+            elif r.status != 200 or r.body != b'':
+                rec.violation('C18:%s:threads:notification not answered with an empty 200 under a thread schedule' % kind, c, expected='200, empty', observed=repr(r))
+                break
+    rec.traces += sched
+    rec.states += sched
+    rec.nontrivial_n += sched
+    rec.counters['thread schedules'] += sched
+    return sched
+
+
 def run_case(case, rec):
+    if case.get('part') == 'threads':
+        return run_threads_case(case, rec)
     if case.get('part') == 'seq':
         return run_seq(case, rec)
     if case.get('dct'):
@@ -307,7 +381,7 @@ def replay(doc):
     from mc.core import Recorder, jdump
     rec = Recorder()
     c = doc['case']
-    run_case({k: c[k] for k in ('part', 'seq', 'status', 'path', 'media', 'body', 'endpoint', 'endpoint_mode', 'target', 'dct', 'accept') if k in c}, rec)
+    run_case({k: c[k] for k in ('part', 'seq', 'status', 'path', 'media', 'body', 'endpoint', 'endpoint_mode', 'target', 'dct', 'accept', 'integration', 'kinds', 'budget', 'shard') if k in c}, rec)
     for v in rec.violations[:6]:
         print('VIOLATION-REPLAY signature=%s\n  expected=%s\n  observed=%s' % (v['signature'], jdump(v['expected'])[:300], jdump(v['observed'])[:300]))
     print('replayed: %d violation(s)' % len(rec.violations))
